@@ -1,5 +1,5 @@
 (* Grounding of one action instance, as the sequential simulator does it — DEFINITIONS ONLY
-   (proofs: Proofs/Ground_proofs.v, statements: Props/C01.v, correspondence: Corr/Corr_C01g.v).
+   (proofs: Proofs/Ground_proofs.v and Proofs/Ground_subst.v, statements: Props/C01.v, correspondence: Corr/Corr_C01g.v).
 
    UPSequentialSimulator._ground_action calls GrounderHelper(problem, prune_actions=False).ground_action, which calls
    unified_planning/engines/compilers/utils.py: create_action_with_given_subs(problem, action, env.simplifier, subs)
@@ -75,7 +75,7 @@ Definition gcfg (T : tytab) (P : problem) : cfg :=
    through the ExpressionManager; on expressions the manager can build (no Not under Not, n-ary operators with >= 2
    arguments: Subst.nf) replacing parameters by constants never triggers one of its normalisations, and no key is
    dropped below a quantifier (a parameter has no free variable), so the result is the plain homomorphic replacement
-   (Ground_proofs.psubst_is_substitute). *)
+   (Proofs/Ground_subst.v: psubst_is_substitute; Props/C01.v: C01_grounded_substitution_is_substituter). *)
 Fixpoint psubst (sg : list (N * value)) (e : expr) {struct e} : expr :=
   match e with
   | EBool _ | EInt _ | EReal _ | EObj _ | EVar _ _ => e
